@@ -33,10 +33,11 @@ def gen_unit_spec(r, name, is_async, max_pre=3, max_post=2, max_snap=2, forms=Tr
     return u
 
 
-def gen_world(r, is_async, nfuncs=(1, 2), with_class=0.6, forms=True, async_methods=None, max_invs=2):
+def gen_world(r, is_async, nfuncs=(1, 2), with_class=0.6, forms=True, async_methods=None, max_invs=2, mixed=False):
     w = {"funcs": [], "classes": [], "objects": []}
     for i in range(r.randint(*nfuncs)):
-        w["funcs"].append(gen_unit_spec(r, "f%d" % i, is_async, forms=forms))
+        fa = is_async and not (mixed and r.random() < 0.4)
+        w["funcs"].append(gen_unit_spec(r, "f%d" % i, fa, forms=forms))
     if r.random() < with_class:
         am = is_async if async_methods is None else async_methods
         cs = {"name": "K0", "init": {"super": "first"}, "methods": [], "invs": []}
@@ -130,11 +131,12 @@ def gen_ticket(r, tid, units, profile, depth=0, u=None):
         if p is not None:
             body["pause"] = p
     # nested calls
+    hosts = ids + [(x, "inv", {}) for x in u.get("invs", ())]
     if depth < profile.get("max_depth", 2) and r.random() < profile.get("p_nested", 0.15):
         for k in range(r.randint(1, profile.get("max_fanout", 2))):
-            where = r.choice(["site", "site", "body"]) if ids else "body"
+            where = r.choice(["site", "site", "body"]) if hosts else "body"
             if where == "site":
-                sid, kind, c = r.choice(ids)
+                sid, kind, c = r.choice(hosts)
                 host_async = u["async"] and c.get("style", "sync") != "sync"
             else:
                 sid = None
@@ -142,7 +144,7 @@ def gen_ticket(r, tid, units, profile, depth=0, u=None):
             cands = [x for x in units if host_async or not x["async"]]
             if not cands:
                 continue
-            if where == "site" and r.random() < profile.get("p_self", 0.4) and (host_async or not u["async"]):
+            if where == "site" and kind != "inv" and r.random() < profile.get("p_self", 0.4) and (host_async or not u["async"]):
                 n = {"ref": "SELF"}
             else:
                 n = gen_ticket(r, "%s.n%d" % (tid, k), cands, profile, depth + 1)
